@@ -217,13 +217,17 @@ pub fn gen_graph(rng: &mut Rng, allow_nested: bool) -> Graph {
         7 | 8 => 4,
         _ => rng.range(5, 6),
     };
+    // now and then a large graph (long chains, wide fan-out): depth and size thresholds
+    let large = rng.chance(1, 25);
+    let n = if large { rng.range(10, 36) } else { n };
+    let name_pool = if large { 12 } else { 4 };
     // files: the root in /w, the others anywhere; base names f0..f3 repeat across directories
     let mut files: Vec<GFile> = vec![GFile { path: "/w/f0.td".into(), includes: vec![] }];
     let spread = rng.chance(1, 2); // half of the graphs stay in one directory
-    let n = if spread { n } else { n.min(4) }; // one directory holds only f0..f3
+    let n = if spread || large { n } else { n.min(4) }; // one directory holds only f0..f3
     while files.len() < n {
-        let dir = if spread { DIRS[rng.below(3)] } else { "/w" };
-        let path = format!("{dir}/f{}.td", rng.below(4));
+        let dir = if spread || large { DIRS[rng.below(3)] } else { "/w" };
+        let path = format!("{dir}/f{}.td", rng.below(name_pool));
         if files.iter().all(|f| f.path != path) {
             files.push(GFile { path, includes: vec![] });
         }
@@ -241,8 +245,14 @@ pub fn gen_graph(rng: &mut Rng, allow_nested: bool) -> Graph {
     let dotdot = rng.chance(1, 3);
     let mut counter = 0u32;
     let mut unreadable = Vec::new();
+    let chain = large && rng.chance(1, 2);
     for i in 0..files.len() {
-        let deg = [0, 1, 1, 2, 2, 3][rng.below(6)];
+        if chain && i + 1 < files.len() {
+            // a long chain: file i includes file i+1 by a path that resolves from its directory
+            let next = files[i + 1].path.clone();
+            files[i].includes.push(GInc { name: next, nested: false });
+        }
+        let deg = if large && !chain && i == 0 { rng.range(8, 20) } else { [0, 1, 1, 2, 2, 3][rng.below(6)] };
         for _ in 0..deg {
             let name = match rng.below(14) {
                 0 => {
@@ -382,7 +392,7 @@ pub fn check_c16(g: &Graph, stats: &mut C16Stats) -> Vec<Violation> {
         host.set_file_content(root_id, Arc::from(root_text.as_str()));
         host.set_root_file(&mut fs, root_id);
         let reads = fs.reads.get();
-        (RefHost { host, fs, root: root_id, texts: files.clone() }, reads)
+        (RefHost { host, fs, root: root_id, texts: files.clone(), maps: Default::default() }, reads)
     }));
     crate::exec::take_last_panic();
     let (host, reads) = match built {
@@ -417,7 +427,7 @@ pub fn check_c16(g: &Graph, stats: &mut C16Stats) -> Vec<Violation> {
         let again = std::panic::catch_unwind(std::panic::AssertUnwindSafe(|| {
             host.fs.files = files2.clone();
             host.fs.reads.set(0);
-            host.texts = files2.clone();
+            host.set_texts(files2.clone());
             let root_id = host.root;
             host.host.set_file_content(root_id, Arc::from(root_text.as_str()));
             host.host.set_root_file(&mut host.fs, root_id);
@@ -717,7 +727,10 @@ fn full_query_set(h: &RefHost, queries: &mut u64) -> BTreeMap<String, Option<Vec
         let text = h.text_of(id).to_string();
         for kind in ALL_REQ_KINDS {
             if kind.positional() {
-                for (off, _) in name_offsets(&text) {
+                // every name token of a small file; an evenly spread sample of a large one
+                let names = name_offsets(&text);
+                let stride = (names.len() / 80).max(1);
+                for (off, _) in names.into_iter().step_by(stride) {
                     out.insert(format!("{kind:?} {p}@{off}"), h.expected(kind, p, off, true));
                     *queries += 1;
                 }
@@ -740,7 +753,7 @@ pub fn check_c07(sc: &HistScenario, stats: &mut C07Stats) -> Vec<Violation> {
         let mut v = Vec::new();
         let mut disk: BTreeMap<PathBuf, String> = sc.disk0.iter().map(|(p, t)| (PathBuf::from(p), t.clone())).collect();
         // the long-lived host and its file system (ids persist, like the server's Vfs)
-        let mut live = RefHost { host: AnalysisHost::new(), fs: MemFs::new(disk.clone()), root: ide::file_system::FileId(0), texts: disk.clone() };
+        let mut live = RefHost { host: AnalysisHost::new(), fs: MemFs::new(disk.clone()), root: ide::file_system::FileId(0), texts: disk.clone(), maps: Default::default() };
         let mut prev_ws: Vec<String> = Vec::new();
         let mut prev_root: Option<String> = None;
         for (i, op) in sc.ops.iter().enumerate() {
@@ -771,7 +784,7 @@ pub fn check_c07(sc: &HistScenario, stats: &mut C07Stats) -> Vec<Violation> {
                 }
             };
             live.fs.files = disk.clone();
-            live.texts = disk.clone();
+            live.set_texts(disk.clone());
             let Some((path, text)) = touched else { continue };
             if prev_root.as_ref().map(|r| *r != path).unwrap_or(false) {
                 stats.root_switches += 1;
